@@ -146,11 +146,24 @@ func caseECmult(r *vlib.Rand, pool []refec.Point, count func(string, string)) *f
 	return guard("ECmult", w, func() *fail {
 		a := mkXYZ(A, z, den, r)
 		var res secp256k1.XYZ
+		nna, nng := num(na), num(ng)
 		if r.Intn(4) == 0 {
-			a.ECmult(&a, num(na), num(ng)) // in place, as Multiply() does
+			a.ECmult(&a, nna, nng) // in place, as Multiply() does
 			res = a
 		} else {
-			a.ECmult(&res, num(na), num(ng))
+			a.ECmult(&res, nna, nng)
+			// the operands are inputs: the scalars must come back unchanged (value and usability), and the same objects
+			// used again must give the same point
+			if nna.Cmp(na) != 0 || nng.Cmp(ng) != 0 || new(big.Int).Add(&nng.Int, big.NewInt(0)).Cmp(ng) != 0 {
+				w["na_after"], w["ng_after"] = hexv(&nna.Int), hexv(&nng.Int)
+				return scalarFail("ECmult", "modifies-its-scalar-operands", "ECmult changed the scalar objects it was given", w)
+			}
+			var res2 secp256k1.XYZ
+			a.ECmult(&res2, nna, nng)
+			if g1, g2 := readXYZ(&res), readXYZ(&res2); !g1.Equal(g2) {
+				w["first"], w["second"] = ptStr(g1), ptStr(g2)
+				return scalarFail("ECmult", "second-call-same-operands-differs", "ECmult with the very same operand objects gives another point the second time", w)
+			}
 		}
 		exp := refec.MulAdd(na, A, ng)
 		got := readXYZ(&res)
